@@ -64,6 +64,13 @@ def dedupNm : List Nm → List Nm
   | [] => []
   | x :: xs => x :: (dedupNm xs).filter (fun y => y ≠ x)
 
+/-- a procedure imported from a module that is not in the cache: `create_from_ir` returns an `ExternalItem` for the
+module (the import), nothing for the call -/
+def resolveRef (ds : List Def) (r : Nm) : Nm :=
+  match r with
+  | .proc s _ => if s != "" && !hasDef ds (.mod s) then .mod s else r
+  | .mod _ => r
+
 /-- `Item.create_dependency_items` on resolved references: an item without a program unit is an `ExternalItem` (no
 dependencies); a bare procedure name `#p` that resolves to nothing raises `RuntimeError` under `strict`
 (`ItemFactory._get_procedure_item`), a name in a module that is not in the cache becomes an `ExternalItem` silently -/
@@ -72,10 +79,10 @@ def childrenOf (ds : List Def) (strict : Bool) (a : Nm) : Except Err (List Nm) :
   | none => .ok []
   | some d =>
     if strict && d.refs.any (fun r => r.isProc && r.scope == "" && !hasDef ds r) then .error .runtime
-    else .ok (dedupNm d.refs)
+    else .ok (dedupNm (d.refs.map (resolveRef ds)))
 
 def nameUniverse (ds : List Def) (start : List Nm) : List Nm :=
-  start ++ ds.flatMap (fun d => d.name :: d.refs)
+  start ++ ds.flatMap (fun d => d.name :: d.refs.map (resolveRef ds))
 
 /-- `SGraph.from_seed`: seeds that are in the cache, then the worklist loop -/
 def discover (ds : List Def) (strict : Bool) (seeds : List Nm) : Except Err (Graph Nm) :=
@@ -274,5 +281,39 @@ def traceOps (plan : Bool) : St → List Op → List (Except Err St)
     match applyOp plan st op with
     | .error e => [.error e]
     | .ok st' => .ok st' :: traceOps plan st' ops
+
+/-! ## the class of requests on which the model is tied to the real code -/
+
+def isLowerS (s : String) : Bool := s.toLower == s
+
+def opLower : Op → Bool
+  | .dup _ _ suf msuf => isLowerS suf && isLowerS msuf
+  | .rem _ => true
+  | .wrap m => isLowerS m
+  | .dep s m => isLowerS s && isLowerS m
+
+/-- one top-level program unit (module or routine outside a module) per file -/
+def splitLayout (ds : List Def) : Bool :=
+  let tops := ds.filter (fun d => d.name.scope == "")
+  tops.all (fun d => (tops.filter (fun e => e.file == d.file)).length == 1)
+
+def isDep : Op → Bool | .dep _ _ => true | _ => false
+def isDup : Op → Bool | .dup _ _ _ _ => true | _ => false
+def isRem : Op → Bool | .rem _ => true | _ => false
+def isSub : Op → Bool | .dup _ s _ _ => s | _ => false
+
+/-- `DependencyTransformation` only as the last operation -/
+def depLast : List Op → Bool
+  | [] => true
+  | [_] => true
+  | op :: ops => !isDep op && depLast ops
+
+/-- plan mode: no duplication after a removal (the removal is recorded in `plan_data` of the original item only) -/
+def noDupAfterRem : List Op → Bool
+  | [] => true
+  | op :: ops => (!isRem op || !ops.any isDup) && noDupAfterRem ops
+
+def Covered (plan : Bool) (st : St) (ops : List Op) : Bool :=
+  splitLayout st.defs && ops.all opLower && !ops.any isSub && depLast ops && (!plan || noDupAfterRem ops)
 
 end LokiModel.C25
